@@ -32,7 +32,6 @@ func init() {
 			obs = append(obs, c.AppendOwnership("nbt", "nbt/dynbt")...)
 			obs = append(obs, c.TagWidths("nbt", "nbt/dynbt")...)
 			obs = append(obs, c.ClauseConsistency("nbt", "nbt/dynbt")...)
-			obs = append(obs, c.BitFields("nbt", "nbt/dynbt")...)
 			obs = append(obs, filterObs(c.RawRead(), func(o core.Ob) bool { return strings.HasPrefix(o.Key, "nbt.") || strings.HasPrefix(o.Key, "nbt/") })...)
 			return obs
 		},
@@ -60,7 +59,13 @@ func init() {
 			obs = append(obs, c.RuneTruncation("nbt")...)
 			obs = append(obs, c.ScannerDetours("nbt")...)
 			obs = append(obs, c.StringIndexGuards(pkgPred("nbt"))...)
-			obs = append(obs, filterObs(c.TagDispatch("nbt"), func(o core.Ob) bool { return strings.Contains(o.Key, "StringifiedMessage") })...)
+			textDispatch := ""
+			if ws := c.dispatchOf("StringifiedMessage", false); ws != nil {
+				textDispatch = ws.fn
+			}
+			obs = append(obs, filterObs(c.TagDispatch("nbt"), func(o core.Ob) bool {
+				return strings.Contains(o.Key, "StringifiedMessage") || (textDispatch != "" && strings.HasPrefix(o.Key, textDispatch+"#"))
+			})...)
 			// scope: what the exported text entry points reach inside package nbt (call graph, not names)
 			var rootNames []string
 			for _, fn := range c.Funcs() {
